@@ -119,6 +119,11 @@ func c07abstract() {
 	vrt.UFSlice("github.com/free5gc/nas/zz_verifref.SnowKeystream", "SNOWKS", 2)
 	vrt.UFSlice("github.com/free5gc/nas/security/zuc.Zuc", "ZUCKS", 2)
 	vrt.UFSlice("github.com/free5gc/nas/zz_verifref.ZUCKeystream", "ZUCKS", 2)
+	// GF(2^64) multiplication of 128-EIA1 (justified by VH_C07_mul64: mul = MUL64 at full width). Without this a
+	// deviation in how the message blocks are formed leaves z3 with a disequality of two carry-less 64x64 multiplier
+	// chains, which it does not decide; with it the disequality reduces to the blocks themselves.
+	vrt.UF("github.com/free5gc/nas/security.mul", "GFMUL")
+	vrt.UF("github.com/free5gc/nas/zz_verifref.MUL64", "GFMUL")
 }
 
 func VH_C07_abs_nasmac()    { c07abstract(); VH_C07_nasmac() }
